@@ -385,15 +385,73 @@ DUPLICATES = [
 ]
 
 
+def hygiene_verdict(t, aliases=frozenset(), bound=frozenset()):
+    """Rule (iv) and the variable part of rule (i) on a reference tree of a predicate condition: 'ok' | 'sanity'."""
+
+    def free_uses(u, name):
+        # occurrences of @name in u (an occurrence below a quantifier that re-binds the name still counts as a use:
+        # such a nesting is rejected anyway)
+        if not isinstance(u, tuple) or not u:
+            return False
+        if u[0] == 'var':
+            return u[1] == name
+        return any(free_uses(x, name) if isinstance(x, tuple) and x and isinstance(x[0], str) else any(free_uses(y, name) for y in x if isinstance(y, tuple)) for x in u[1:] if isinstance(x, tuple))
+
+    def walk(u, bound):
+        if not isinstance(u, tuple) or not u:
+            return True
+        if u[0] == 'var':
+            return u[1] in bound or u[1] in aliases
+        if u[0] == 'quant':
+            _, _q, v, dom, body = u
+            if v in bound:
+                return False  # nested inside a quantifier binding the same name
+            if free_uses(dom, v) or not free_uses(body, v):
+                return False
+            inner = bound | {v}
+            return walk(dom, inner) and walk(body, inner)  # a quantifier in the domain is nested inside this one, too
+        ok = True
+        for x in u[1:]:
+            if isinstance(x, tuple):
+                if x and isinstance(x[0], str):
+                    ok = walk(x, bound) and ok
+                else:
+                    for y in x:
+                        if isinstance(y, tuple):
+                            ok = walk(y, bound) and ok
+        return ok
+
+    return 'ok' if walk(t, frozenset(bound)) else 'sanity'
+
+
 def run_sub(r):
     problems = []
+    from hplmc.checks.c07 import hygiene_bodies
+    from hplmc.ref import parse as RP
+
+    generated = []
+    for cond in hygiene_bodies():
+        try:
+            tree, _ = RP.parse('expr', cond)
+        except Exception:  # noqa: BLE001
+            r.notes['hygiene body outside the reference grammar'] += 1
+            continue
+        generated.append((hygiene_verdict(tree), cond))
     for want, cond in HYGIENE:
+        tree, _ = RP.parse('expr', cond)
+        if hygiene_verdict(tree) != want:
+            problems.append(('HARNESS-ERROR hygiene oracle disagrees with the hand-written verdict', f'«{cond}»: {want} vs {hygiene_verdict(tree)}'))
+    for want, cond in HYGIENE + generated:
+        r.outcomes['hygiene:' + want] += 1
         for tmpl in ('globally: no t { %s }', 'after s: t { %s } causes u', 'until t { %s }: some u'):
             text = tmpl % cond
             r.count('evaluations')
             r.count('states')
             r.count('transitions', 2)
             st, obj = impl.try_parse('prop', text)
+            if st == 'type':
+                r.notes['hygiene text rejected with a type error'] += 1
+                continue
             if st != want:
                 problems.append((f'quantifier hygiene: expected {want}, got {st} [parser]', f'«{text}»'))
             # API route: rebuild the predicate from the reference parse of the condition
@@ -489,7 +547,7 @@ def describe(tier):
     b = bounds(tier)
     menus = '; '.join(f"<= {m['features']} features with aliases {list(m['names'])} and placements {list(m['placements'])}" for m in b['menus'])
     return {
-        'rule': f"every scope kind x pattern kind x every combination of features ({menus}) from: make a position a 2-wide disjunction; give an event (either alternative of any position) an alias; give an event a reference to an alias or to Z (never bound) placed at top level / in a quantifier body / in a quantifier domain. Each property is built four ways (parser; constructors; but() copies from the all-default property: at once, event by event, and stepwise through intermediate properties; events derived with but() from events that already sit in a checked property and have been queried, in both directions) and the accept / sanity-error outcome compared with an independent scoping function. Plus 20 quantifier-hygiene predicates x 3 positions and 10 duplicate-channel disjunctions x 5 positions x both nestings. A state = one property; a transition = one construction.",
+        'rule': f"every scope kind x pattern kind x every combination of features ({menus}) from: make a position a 2-wide disjunction; give an event (either alternative of any position) an alias; give an event a reference to an alias or to Z (never bound) placed at top level / in a quantifier body / in a quantifier domain. Each property is built four ways (parser; constructors; but() copies from the all-default property: at once, event by event, and stepwise through intermediate properties; events derived with but() from events that already sit in a checked property and have been queried, in both directions) and the accept / sanity-error outcome compared with an independent scoping function. Plus 20 hand-written and 392 generated quantifier-hygiene predicates (4 outer quantifiers x 16 wrappers x 6 inner quantifiers that re-bind / shadow / leak / never use a variable, verdict from an independent implementation of rule (iv)) x 3 positions x parser and API routes and 10 duplicate-channel disjunctions x 5 positions x both nestings. A state = one property; a transition = one construction.",
         'bounds': {'menus': [[m['features'], len(m['names']), len(m['placements'])] for m in b['menus']]},
         'exhaustive': True,
         'assumptions': ['the same alias on two alternatives of one disjunction is parallel binding, not re-binding; an alias bound on some alternatives counts as bound for later events (C02 wording)'],
